@@ -220,7 +220,9 @@ def r4(prog, rep):
     rep.floor("R4.dx", n, 2)
 
 
-def r5(prog, rep):
+def segment_pairs(prog, rep, grad=True):
+    """adjoining radial segments of every region: shared boundary psi (and, with grad, the same
+    spacing gradient at the common separatrix).  Also used as a premise of C08."""
     from .. import tables
     from ..tables import Leaf, Sliced
     n_pairs = 0
@@ -255,10 +257,17 @@ def r5(prog, rep):
                 ok = isinstance(pe, Rat) and isinstance(ps, Rat) and (pe - ps).is_zero()
                 rep.ob("R5", "%s, %s: segments %s|%s share their boundary psi value" % (t.name, rname, segs[k], segs[k + 1]), ok, tables.TOK,
                        "%s vs %s" % (pe.show(60) if isinstance(pe, Rat) else pe, ps.show(60) if isinstance(ps, Rat) else ps), key=key + "/psi")
+                if not grad:
+                    continue
                 ok = isinstance(ge, Rat) and isinstance(gs, Rat) and (ge - gs).is_zero()
                 rep.ob("R5", "%s, %s: segments %s|%s have the same radial spacing gradient at their common separatrix" % (t.name, rname, segs[k], segs[k + 1]), ok, tables.TOK,
                        "%s vs %s" % (ge.show(80) if isinstance(ge, Rat) else ge, gs.show(80) if isinstance(gs, Rat) else gs), key=key + "/grad")
     rep.floor("R5.segment-pairs", n_pairs, 20)
+
+
+def r5(prog, rep):
+    from .. import tables
+    segment_pairs(prog, rep, grad=True)
     # the gradient term scales like 1/nx (needed for nesting): every candidate of min_abs is (psi difference)/nx_k
     t = tables.topology(prog, "LDN")
     g = t.segments["core"]["grad_end"]
